@@ -11,6 +11,11 @@ def repo_hook_commits():
 
 # id -> (level, technique, level text, level note, design ref) ; None = not yet claimed
 CHECKS = {
+ "C12": ("exploration",
+         "online trace monitor + reference model (multisig) over generated propose/approve/cancel/reconfigure histories incl. re-entrant self-calls",
+         "Every send leaving a wallet is judged, in execution order inside the invocation tree, against a model built only from observed successful calls (quorum of distinct current signers for exactly that tx, executed once, lock-up respected with an independent vesting computation); signers/threshold/lock/pending state is compared with the model after every message. Held on the histories explored; not a proof.",
+         "Trusted: MVM nested-send/rollback semantics; the model mirrors two code behaviours the statement allows (Approve executes an already-met lowered threshold; a tx whose approvals are all purged disappears).",
+         "DESIGN.md 3/C12"),
  "C16": ("exploration",
          "history + executable reference model (payment channel) over generated voucher/settle/collect histories on the real actor",
          "Every generated history is executed on the real paych actor inside the monitoring VM; after every call the observed acceptance, to_send, lanes, settle heights, payouts and actor deletion are compared with a literal reference channel. Held on the histories explored; not a proof.",
